@@ -1,6 +1,7 @@
 package props
 
 import (
+	"context"
 	"fmt"
 	"strings"
 
@@ -62,6 +63,19 @@ func c02ops() []c02op {
 		}, nil},
 		{"swap-keeps-rest-args-2", nil, func([]int) int { return kL }, func(a []string, c int) string {
 			return f("(do (swap! at2 (fn [old & evs] (keep! evs) evs) %d %d) (deref at2))", c, c+1)
+		}, nil},
+		// a swap! whose update function makes its first attempt stale (it resets the atom itself), keeping
+		// the argument list of every attempt: the list kept during the superseded attempt must stay as it was
+		{"swap-retry-keeps-args", nil, func([]int) int { return kL }, func(a []string, c int) string {
+			return f("(do (reset! at1 0) (swap! at1 (fn [& xs] (keep! xs) (if (= (first xs) 0) (do (reset! at1 1) :stale) xs)) %d) (deref at1))", c)
+		}, nil},
+		// closures made in successive iterations of a self tail call, each capturing the loop's parameters:
+		// what a closure returns later must be what its captured binding held when it was made
+		{"closures-over-loop-parameters", []int{mSeq}, toL, func(a []string, c int) string {
+			return f("(map (fn [g] (g)) (loopcap %s []))", a[0])
+		}, nil},
+		{"closures-over-loop-parameters-do", []int{mSeq}, toL, func(a []string, c int) string {
+			return f("(map (fn [g] (g)) (loopcapdo %s {} 0))", a[0])
 		}, nil},
 		{"map-rest-fn", []int{mSeq}, toL, func(a []string, c int) string { return f("(map (fn [& xs] (keep! xs) xs) %s)", a[0]) }, nil},
 		{"apply-rest-fn", []int{mSeq}, toL, func(a []string, c int) string { return f("(apply (fn [x & xs] (keep! xs) xs) %d %s)", c, a[0]) }, nil},
@@ -132,7 +146,9 @@ const c02prelude = `(do
  (def at1 (atom nil))
  (def at2 (atom nil))
  (defmacro mxq (fn [s & xs] (list 'concat s (list 'quote (concat xs (quote (77)))))))
- (def frest (fn [s & xs] (concat xs s))))`
+ (def frest (fn [s & xs] (concat xs s)))
+ (def loopcap (fn [s acc] (if (empty? s) acc (loopcap (rest s) (conj acc (keepfn! (fn [] s) s))))))
+ (def loopcapdo (fn [s m n] (do (if (empty? s) [(keepfn! (fn [] m) m)] (loopcapdo (rest s) (assoc m n (first s)) (+ n 1)))))))`
 
 // successors enumerates all type-correct next steps given the kinds of existing names.
 func c02successors(ops []c02op, kinds []int) []c02step {
@@ -211,10 +227,23 @@ type c02keptVal struct {
 
 var c02kept []c02keptVal
 
+// c02keptFn: closures together with the canonical form of the value their captured binding held
+// when they were made (the keepfn! builtin); calling the closure later must give that value.
+type c02keptFnVal struct {
+	f    types.MalType
+	snap string
+}
+
+var c02keptFns []c02keptFnVal
+
 func c02installKeep(base types.EnvType) {
 	call.CallOverrideFN(base, "keep!", func(v types.MalType) (types.MalType, error) {
 		c02kept = append(c02kept, c02keptVal{v, model.FromImpl(v).String()})
 		return nil, nil
+	})
+	call.CallOverrideFN(base, "keepfn!", func(f, v types.MalType) (types.MalType, error) {
+		c02keptFns = append(c02keptFns, c02keptFnVal{f, model.FromImpl(v).String()})
+		return f, nil
 	})
 }
 
@@ -232,6 +261,7 @@ func (c *c02run) start() {
 	c.kinds = append([]int{}, c02seedKinds...)
 	c.snap, c.made, c.text = nil, nil, nil
 	c02kept = nil
+	c02keptFns = nil
 	for i, s := range c02seedText {
 		if _, err, p := lx.Eval(nil, lx.MustRead(s), c.scope); err != nil || p != nil {
 			panic(fmt.Sprint("c02 seed failed: ", s, err, p))
@@ -282,6 +312,16 @@ func (c *c02run) apply(st c02step, r *vf.Rec) (sig, detail string) {
 		if now := model.FromImpl(kv.v).String(); now != kv.snap {
 			return fmt.Sprintf("%s changed a value that a function had received and kept", op.name),
 				fmt.Sprintf("after %s, a kept argument list changed from %s to %s\nhistory:\n  %s", stepText, kv.snap, now, strings.Join(c.text, "\n  "))
+		}
+	}
+	for _, kf := range c02keptFns {
+		res, err := types.Apply(context.Background(), kf.f, nil)
+		if err != nil {
+			return fmt.Sprintf("%s: a closure over a captured binding fails later", op.name), err.Error()
+		}
+		if now := model.FromImpl(res).String(); now != kf.snap {
+			return fmt.Sprintf("%s changed what a closure's captured binding holds", op.name),
+				fmt.Sprintf("after %s, a closure made while its captured binding held %s now returns %s\nhistory:\n  %s", stepText, kf.snap, now, strings.Join(c.text, "\n  "))
 		}
 	}
 	c.names = append(c.names, name)
